@@ -879,6 +879,10 @@ fn arg_cases() -> Vec<ArgCase> {
     for re in ["(", ")", "[", "[a", "\\", "a{2,1}", "(?z)", "\\p{NoSuchClass}", "*", "(?P<n>"] {
         bads.push(("regex", vec!["-e", re]));
     }
+    // two patterns that are each invalid but read as one valid regex when joined with `|`
+    bads.push(("regex", vec!["-e", "(a", "-e", "b)"]));
+    bads.push(("regex", vec!["-e", "[a", "-e", "b]"]));
+    bads.push(("regex", vec!["-e", "(needle", "-e", "hay)"]));
     for g in ["[", "[a", "{a", "[!"] {
         bads.push(("glob", vec!["-g", g]));
     }
@@ -890,6 +894,11 @@ fn arg_cases() -> Vec<ArgCase> {
     bads.push(("flag", vec!["--no-such-flag"]));
     bads.push(("flag", vec!["--frobnicate=1"]));
     bads.push(("flag", vec!["-%"]));
+    // short flags outside ASCII, among them code points whose low byte is the name of a real flag
+    // (U+0169 -> i, U+0171 -> q, U+016E -> n), alone and inside a cluster
+    for f in ["-\u{169}", "-\u{171}", "-n\u{169}", "-\u{e9}", "-\u{3bb}", "-\u{16e}"] {
+        bads.push(("flag", vec![f]));
+    }
     bads.push(("value", vec!["-j", "x"]));
     bads.push(("value", vec!["--color=purple"]));
     bads.push(("value", vec!["-A", "x"]));
